@@ -26,6 +26,9 @@ CONFIGS = {
     "asm": ("clang++", [], True),
     "p64": ("clang++", ["-DDISABLE_ASM"], False),
     "p32": ("clang++", ["-DDISABLE_ASM", "-U__SIZEOF_INT128__"], False),
+    # unoptimised portable build: code that is only right because the optimiser happens to reorder it (an aliased __restrict operand,
+    # an uninitialised temporary) behaves differently here
+    "p64-O0": ("clang++", ["-DDISABLE_ASM", "-O0", "-fno-fast-math"], False),
     "asm-san": ("g++", ["-fsanitize=address,undefined", "-fno-sanitize-recover=undefined", "-fno-omit-frame-pointer"], True),
     "p64-san": ("g++", ["-DDISABLE_ASM", "-fsanitize=address,undefined", "-fno-sanitize-recover=undefined", "-fno-omit-frame-pointer"], False),
     "p32-san": ("g++", ["-DDISABLE_ASM", "-U__SIZEOF_INT128__", "-fsanitize=address,undefined", "-fno-sanitize-recover=undefined", "-fno-omit-frame-pointer"], False),
